@@ -14,8 +14,6 @@
 #include "mx.h"
 
 #include "c04_mint.h"   /* labels + mint_der(): shared with the OpenSSL-prover stage (c04_ossl.c) */
-enum { CB_NONE = 0, CB_STRICT, CB_PERMISSIVE, CB_ANON, CB_N };   /* CB_ANON: the server's callback answers SSL_ALLOW_ANON_CONNECTION (continue, peer treated as anonymous) */
-static const char *cbname[] = { "no-callback", "strict-callback", "permissive-callback", "allow-anon-callback" };
 typedef struct { const char *name; int ver; uint16_t suite; int leafType; int verifierIsServer; } scn_t;
 static const scn_t scns[] = {
     { "rsa-kx", MX_TLS11, 0x002f, CG_K_RSA2048, 0 }, { "ecdhe-rsa", MX_TLS11, 0xc013, CG_K_RSA2048, 0 },
@@ -26,12 +24,6 @@ static const scn_t scns[] = {
     { "clientauth-ecdsa", MX_TLS13, 0x1301, CG_K_P256, 1 }, { "clientauth-rsa", MX_TLS13, 0x1301, CG_K_RSA2048, 1 }, { "clientauth-rsa", MX_DTLS12, 0x003c, CG_K_RSA2048, 1 },
 };
 #define NSCN ((int) (sizeof scns / sizeof scns[0]))
-
-/* callback bookkeeping (single-threaded) */
-static int cb_calls, cb_nonzero, cb_last;
-static int32 cb_strict(ssl_t *ssl, psX509Cert_t *c, int32 alert) { (void) ssl; (void) c; cb_calls++; cb_last = alert; if (alert) cb_nonzero++; return alert; }
-static int32 cb_permissive(ssl_t *ssl, psX509Cert_t *c, int32 alert) { (void) ssl; (void) c; cb_calls++; cb_last = alert; if (alert) cb_nonzero++; return 0; }
-static int32 cb_anon(ssl_t *ssl, psX509Cert_t *c, int32 alert) { (void) ssl; (void) c; cb_calls++; cb_last = alert; if (alert) cb_nonzero++; return SSL_ALLOW_ANON_CONNECTION; }
 
 typedef struct { char *chainPem, *keyPem, *caPem; const char *expected; } cred_t;
 static void append(char **dst, char *src) { size_t a = *dst ? strlen(*dst) : 0, b = strlen(src); *dst = realloc(*dst, a + b + 1); memcpy(*dst + a, src, b + 1); free(src); }
@@ -84,8 +76,8 @@ static void run_case(void *a_)
         mx_cfg cfg = { .ver = s->ver, .suite = s->suite, .clientAuth = s->verifierIsServer, .skeys = s->verifierIsServer ? vk : pk, .ckeys = s->verifierIsServer ? pk : vk,
                        .expectedName = cr.expected }; mx_conn k; sslSessionId_t *sid; matrixSslNewSessionId(&sid, NULL); sslSessOpts_t o;
         memset(&k, 0, sizeof k); k.cfg = cfg; k.dtls = MX_IS_DTLS(s->ver);
-        sslCertCb_t vcb = c->cb == CB_NONE ? NULL : c->cb == CB_STRICT ? cb_strict : c->cb == CB_ANON ? cb_anon : cb_permissive;
-        cb_calls = cb_nonzero = cb_last = 0;
+        sslCertCb_t vcb = cb_fn(c->cb);
+        cb_reset();
         /* sessions are created here (not through mx_new_*) because the callback choice belongs to the verifying side only */
         mx_opts(&o, &cfg, MX_SERVER); if (c->depth && s->verifierIsServer) o.validateCertsOpts.max_verify_depth = c->depth; memset(&k.s, 0, sizeof k.s); k.s.role = MX_SERVER; k.s.ver = s->ver; k.s.id = 1; k.s.name = "S";
         mx_actor = 1; MX_ENTER(); rc = matrixSslNewServerSession(&k.s.ssl, cfg.skeys, s->verifierIsServer ? (vcb ? vcb : NULL) : NULL, &o); MX_LEAVE();
@@ -101,12 +93,14 @@ static void run_case(void *a_)
         int both = mx_conn_established(&k);
         vf_distinct("%s|%s|%d|%s|%s|%d|d%d", mx_vername[s->ver], s->name, s->verifierIsServer, lname[c->label], cbname[c->cb], c->viaInt, c->depth);
         vf_statf(1, "outcome_%s%s_%s", lname[c->label], c->depth == 2 ? "+depth-exceeded" : c->depth ? "+depth-ok" : "", vdone ? "complete" : "refused");
-        int mustFail = c->label != L_GOOD || c->depth == 2;
+        int mustFail = c->label != L_GOOD || c->depth == 2 || CB_REFUSES(c->cb);
+        if (CB_REFUSES(c->cb)) vf_statf(1, "cbresult_%s_%s_%s", mx_vername[s->ver], cbname[c->cb] + 9, vdone ? "COMPLETE" : V->ssl->err == SSL_ALERT_INTERNAL_ERROR ? "internal_error" : V->ssl->err == SSL_ALERT_ACCESS_DENIED ? "that-alert" : cb_calls ? "other-alert" : "not-asked");
         if (!mustFail) {
             if (!both) report(c, "good-credentials-refused", "handshake with a correct chain and key did not complete (verifier alert sent %d, callback calls %d last alert %d)", V->ssl->err, cb_calls, cb_last);
             else { unsigned char p[64]; mx_payload(p, 64, 0x0c04, 0, 1); mx_send(&k.c, p, 64); mx_conn_run(&k, NULL, NULL, 20); if (k.s.gotlen != 64) report(c, "good-credentials-refused", "no data after completion"); else vf_stat("positive_controls_ok", 1); }
         } else if (vdone) {
             if (c->label == L_WRONG_KEY) report(c, "completed-without-proof-of-possession", "verifier completed although the peer holds a different private key than the certificate's");
+            else if (CB_REFUSES(c->cb)) report(c, "completed-although-callback-refused", "verifier completed although its certificate callback (%s) refused: called %d times, last alert shown %d; sslCertCb_t: < 0 is a fatal internal error, > 0 is the alert to send", cbname[c->cb], cb_calls, cb_last);
             else if (c->cb != CB_PERMISSIVE && c->cb != CB_ANON) report(c, "completed-despite-validation-failure", "verifier completed (callback calls %d, non-zero alerts %d, last %d)", cb_calls, cb_nonzero, cb_last);
             else if (cb_nonzero == 0) report(c, "failure-not-shown-to-callback", "verifier completed with a permissive callback that was never shown a non-zero alert (calls %d)", cb_calls);
             else vf_stat("application_override_honoured", 1);
@@ -260,6 +254,20 @@ int main(int argc, char **argv)
         if (vf_case && strcmp(vf_case, cur_desc)) continue;
         if (idx % 97 == 0) vf_sample("%s", cur_desc);
         mx_entropy_seed(vf_seed * 31 + idx);
+        vf_fork_case(run_case, &c, "c04", cur_desc, 120);
+    }
+    /* the callback's answer is binding (sslCertCb_t): negative values and positive values other than the alert shown end the handshake for good and bad chains alike, in every version;
+       SSL_ALLOW_ANON_CONNECTION from a client's callback accepts like 0 */
+    static const int cbl_q[] = { L_GOOD, L_UNTRUSTED, L_EXPIRED_LEAF };
+    for (int si = 0; si < NSCN; si++) for (int li = 0; li < (vf_thorough ? L_N : 3); li++) for (int cb = CB_ANON; cb < CB_NALL; cb++) {
+        int l = vf_thorough ? li : cbl_q[li];
+        if (cb == CB_ANON && scns[si].verifierIsServer) continue;                          /* already in the grid above */
+        if (scns[si].verifierIsServer && l == L_WRONG_NAME) continue;
+        if (!vf_mine(idx++)) continue;
+        case_t c = { &scns[si], l, cb, 0, 0 };
+        snprintf(cur_desc, sizeof cur_desc, "scn=%d(%s/%s) label=%s cb=%s via=0", si, mx_vername[scns[si].ver], scns[si].name, lname[l], cbname[cb]);
+        if (vf_case && strcmp(vf_case, cur_desc)) continue;
+        mx_entropy_seed(vf_seed * 53 + idx);
         vf_fork_case(run_case, &c, "c04", cur_desc, 120);
     }
     /* verifier-side limit on the chain depth (sslSessOpts_t validateCertsOpts.max_verify_depth): good chain leaf <- intermediate <- root, limit 2 (one too few) and 3 */
